@@ -1,6 +1,8 @@
 SPECIFICATION Spec
 CONSTANTS
   Mode = "laws"
-  Depth = 0
+  Returns = FALSE
+  Groups = {2}
 INVARIANT Laws
+INVARIANT VerdictLaw
 CHECK_DEADLOCK FALSE
